@@ -82,18 +82,21 @@ claim("C12", "polynomial form of the GV target + taint from the weight inside th
 
 # clauses added in later rounds (DESIGN.md §9.2), appended to the claim texts above
 ADDENDA = {
-    "C01": "Added: create_with_alignment has no unsigned subtraction that could wrap (the frame budget is a float difference).",
-    "C02": "Added (R7): the output buffer is write-only - no statement of generate_step / Vocoder::synthesize or their closures loads an element of it, so a chunk does not depend on what the caller's buffer held.",
-    "C05": "Added: every call of substitutions sits behind a factorisation of the same receiver and no path of par() returns around the solver.",
-    "C09": "Added: the alignment flag alone decides between create_with_alignment and create(speed).",
+    "C01": "Added: create_with_alignment has no unsigned subtraction that could wrap (the frame budget is a float difference); every inverse variance with_ivar can return is bounded (a constant <= 1e50 or 1/x behind |x| >= K) so the MLPG sums cannot overflow to inf/NaN out of a zero variance; a str / String range slice is never discharged by a length argument.",
+    "C02": "Added (R7): the output buffer is write-only - no statement of generate_step / Vocoder::synthesize or their closures loads an element of it, so a chunk does not depend on what the caller's buffer held. Added (R8): SpeechGenerator::new and Vocoder::new both receive condition.fperiod (step stride = samples written per frame).",
+    "C05": "Added: every call of substitutions sits behind a factorisation of the same receiver and no path of par() returns around the solver; past its last dominating test an accumulation of the assembly cannot be skipped (path clause).",
+    "C09": "Added: the alignment flag alone decides between create_with_alignment and create(speed); the fallback estimate runs for exactly the last label when it has no end time; the inheritance loop of Labels::new covers every label from the first.",
     "C10": "Added: no branch of mul / mul_add_assign depends on the weight.",
     "C11": "Added (R8): set_msd_threshold stores clamp(f, 0, 1) on every path and get_msd_threshold returns that element.",
     "C12": "Added: MlpgAdjust::new keeps the stream's GV statistics unchanged, create() hands self.gv to par(), and with a GV model every return of par() is apply_gv's result.",
     "C13": "Added (R6, R7): the MGLSA section and its cascade; the generalised branch of Vocoder::synthesize (df call and arguments, gain b[0], linear interpolation, first-frame / end-of-frame values, b[i] *= gamma for i >= 1 on the first and on every frame); delayed inputs of lsp2lpc maintained as x2 <- x1 <- x.",
     "C14": "Added: conversion stores may be conditional only if the buffer they start from is a copy of the input; the postfilter calls are unconditional in their branch (at most beta > 0).",
     "C15": "Added: the single call is unconditional (at most h != 0) and the half tone feeds nothing else in Engine::generator.",
-    "C17": "Added (R6): every Ok of Labels::new has one time pair per label (negative = unknown pairs when no times are given).",
+    "C17": "Added (R6): every Ok of Labels::new has one time pair per label (negative = unknown pairs when no times are given); a text line without time stamps pushes a pair of strictly negative constants.",
     "C20": "Added: each setter's store is on every path to the return.",
+    "C03": "Added (R9): no hidden condition state - every getter returns the field its setter writes verbatim, so conditions with equal getter values are equal.",
+    "C04": "Added: the regex fallback of Question::parse is reached from every error of the fast matcher (path clause); a header without GAMMA / LN_GAIN leaves stage 0 and linear gain (Condition::default).",
+    "C18": "Added: a str / String range slice is never discharged by a length argument (char boundaries): only the full range is mechanical.",
 }
 
 
